@@ -161,7 +161,7 @@ def eval_compu(case, res: core.ShardResult | None = None) -> list:
     if ir["it"] not in refcompu.INT_TYPES:
         return []
     bits = int(ir.get("bits", 8))
-    if bits > 12:
+    if bits > 32:
         return []
     rc = refcompu.RefCompu(ir)
     try:
@@ -172,7 +172,17 @@ def eval_compu(case, res: core.ShardResult | None = None) -> list:
     lo, hi = refcodec.int_range(ir["it"], None, bits)
     only = case.get("iv")
     fails = []
-    for v in ([only] if only is not None else range(lo, hi + 1)):
+    if bits > 12 and only is None:
+        # wide types are sampled: the domain's ends, zero, and the neighbourhood of every limit of the description
+        import re as _re
+        pts = {lo, lo + 1, hi - 1, hi, 0, 1, -1}
+        for m_ in _re.findall(r'"v": "(-?\d+)"', json.dumps(ir)):
+            x = int(m_)
+            pts |= {x - 2, x - 1, x, x + 1, x + 2}
+        sweep = sorted(p_ for p_ in pts if lo <= p_ <= hi)[:200]
+    else:
+        sweep = [only] if only is not None else range(lo, hi + 1)
+    for v in sweep:
         try:
             if rc.valid_internal(v) is not True:
                 continue
